@@ -116,6 +116,9 @@ func (fr *frame) instr(b *ssa.BasicBlock, in ssa.Instruction, reach Term, h Heap
 			fr.safety(b, "nil-deref", in.Pos(), reach, not(eq(p.ts[0], "0")))
 		}
 		v := fr.get(in.Val)
+		// stores to a named struct field are observable events: ghost counters / forbid may watch them
+		// (pattern store:<Type>.<field>, or store:<Type>.<field>#k for the k-th such store in source order)
+		h = fr.countStore(in, h)
 		nh := x.storeAt(h, p, in.Val.Type(), v)
 		if !fr.isLocalAddr(in.Addr) {
 			nh = x.bumpEpoch(nh)
@@ -343,6 +346,41 @@ var nonRetaining func(name string) bool
 // currentPure: callees declared pure by the contract of the function being encoded (set by Enc.run).
 var currentPure = map[string]bool{}
 
+// closureOnlyLoads: the function literal built by mc uses the captured variable v (a pointer to its cell) only as the
+// operand of loads.
+func closureOnlyLoads(mc *ssa.MakeClosure, v ssa.Value) bool {
+	fn, ok := mc.Fn.(*ssa.Function)
+	if !ok {
+		return false
+	}
+	found := false
+	for k, b := range mc.Bindings {
+		if b != v {
+			continue
+		}
+		if k >= len(fn.FreeVars) {
+			return false
+		}
+		found = true
+		refs := fn.FreeVars[k].Referrers()
+		if refs == nil {
+			return false
+		}
+		for _, r := range *refs {
+			switch r := r.(type) {
+			case *ssa.DebugRef:
+			case *ssa.UnOp:
+				if r.Op != token.MUL {
+					return false
+				}
+			default:
+				return false
+			}
+		}
+	}
+	return found
+}
+
 func escapes(a *ssa.Alloc) bool {
 	if r, ok := escapeCache[a]; ok {
 		return r
@@ -383,6 +421,11 @@ func escapes(a *ssa.Alloc) bool {
 				// other callee can reach the variable (the literal's body is encoded inline, with its own stores)
 				if r.Referrers() == nil {
 					return true
+				}
+				// ... or by a literal whose body only ever loads the variable (never stores to it, never passes its
+				// address on): wherever that literal goes, nobody but this function can change the variable
+				if depth == 0 && closureOnlyLoads(r, v) {
+					continue
 				}
 				for _, rr := range *r.Referrers() {
 					switch rr := rr.(type) {
